@@ -568,6 +568,14 @@ def run(ctx: Context) -> None:
         ctx.check('R05.3', ok and 'b' in kinds, "the same holds for boolean variables: a kept encoding['dtype'] = bool saves the missing value of a missed point as True", ed2,
                   dels[0] if dels else ed2.node, construct=f"stale on-disk kinds dropped: {sorted(kinds)}")
 
+        # every variable that was re-indexed can have been promoted: integer coordinates on the cell dimensions (region numbers, cell ids) as much as data variables
+        loops5 = [n for n in walk_no_nested(ed2.node) if isinstance(n, ast.For) and dels and any(x is dels[0] for x in ast.walk(n))]
+        it5 = norm_text(loops5[-1].iter) if loops5 else '?'
+        import re as _re5b
+        ok_all = bool(_re5b.fullmatch(r"\w+\.variables(\.values\(\)|\.items\(\))?", it5))
+        ctx.check('R05.3', ok_all, "all variables of the extracted dataset are looked at, coordinates included (an integer coordinate on the cell dimensions is filled with NaN like any data variable)", ed2,
+                  loops5[-1] if loops5 else ed2.node, construct=f"stale encodings dropped for: {it5}")
+
     # ------------------------------------------------------------------ R05.6 table rows by position
     with ctx.section('R05.6'):
         # the conversion lives in a private helper today; written out in extract_dataframe itself it is judged there
@@ -621,6 +629,7 @@ _B = 'src/emsarray/conventions/_base.py'
 _P = 'src/emsarray/operations/point_extraction.py'
 VARIANTS = [
     V('C05', 'filled-integers-keep-dtype', 'src/emsarray/operations/point_extraction.py', "                del variable.encoding['dtype']", "                pass", 'R05.3'),
+    V('C05', 'stale-encoding-of-coordinates-kept', 'src/emsarray/operations/point_extraction.py', "        for variable in point_dataset.variables.values():", "        for variable in point_dataset.data_vars.values():", 'R05.3'),
     V('C05', 'table-keeps-own-index', 'src/emsarray/operations/point_extraction.py', "    dataframe = dataframe.reset_index(drop=True)", "    dataframe = dataframe.copy()", 'R05.6'),
     V('C05', 'sel-for-isel', _B, "        return dataset.isel(selector)", "        return dataset.sel(selector)", 'R05.1'),
     V('C05', 'column-reversed', _B, "            dimension: (index_dimension, index_array[:, i])", "            dimension: (index_dimension, index_array[:, -1 - i])", 'R05.1'),
